@@ -317,9 +317,14 @@ class Server:
                 if not self._pipeline_notfull.wait(timeout * 0.99):
                     raise ServerBacklogFull(len(pipeline), perf_counter() - t0)
 
-            self._input_buffer.put((uid, x))
+            # Record the request in the ledger before it enters the pipeline:
+            # a fast worker's result can reach `_gather_output` (which does not
+            # take this lock) before this thread gets to run again; if the ledger
+            # entry were not there yet, the response would be dropped and the
+            # entry added afterwards would never be resolved nor removed.
+            # `put` on this (unbounded) queue does not block.
             pipeline[uid] = fut
-            # See doc of counterpart methods in `AsyncServer`.
+            self._input_buffer.put((uid, x))
 
         fut.data['t1'] = perf_counter()
         return fut
@@ -580,8 +585,12 @@ class AsyncServer:
             #     change `pipeline.pop(uid)` in `_gather_output` to `pipeline.pop(uid, None)`;
             # (2) in `call`, protect the calll to `_enqueue` by an `asyncio.shield`.
 
-            self._input_buffer.put((uid, x))
+            # There is no `await` between the next two statements, hence no way for
+            # this coroutine to be abandoned in between. The ledger entry must exist
+            # before the request enters the pipeline, because the gather thread may
+            # see the result at any moment after `put`.
             pipeline[uid] = fut
+            self._input_buffer.put((uid, x))
 
         fut.data['t1'] = perf_counter()  # enqueing finished if `t1` != `t0`
         return fut
